@@ -1,18 +1,28 @@
 #!/bin/bash
-# re-run every quick check against each kept seeded change (applied to /repo, undone afterwards); updates meta.json
+# Re-run every quick check against each kept seeded change and update seeded/<id>/meta.json.
+# Works on a scratch worktree of /repo HEAD (GTSA_REPO) and on a snapshot of the checker code, so neither /repo nor the
+# checker being edited is disturbed; the 20 checks of one seed run in parallel.  (The per-seed confirmation in
+# seed_eval.sh applies the patch to /repo itself, as the registered commands read /repo.)
 cd /verif
+W=$(mktemp -d /tmp/gtsa_recheck_XXXX)
+git -C /repo worktree add -q --detach $W/wt HEAD
+mkdir -p $W/code; cp -r /verif/gtsa /verif/check.py /verif/known_findings.json $W/code/
 for d in seeded/*/; do
   ID=$(basename $d)
-  git -C /repo apply /verif/seeded/$ID/patch.diff || { echo "$ID: patch does not apply"; continue; }
+  git -C $W/wt apply /verif/seeded/$ID/patch.diff || { echo "$ID: patch does not apply"; continue; }
+  for p in C01 C02 C03 C04 C05 C06 C07 C08 C09 C10 C11 C12 C13 C14 C15 C16 C17 C18 C19 C20; do
+    ( GTSA_REPO=$W/wt GTSA_SELFTEST=1 python3 $W/code/check.py --property $p --tier quick > $W/$p.log 2>&1; echo $? > $W/$p.rc ) &
+  done
+  wait
   CAUGHT=""; DETAIL=""
   for p in C01 C02 C03 C04 C05 C06 C07 C08 C09 C10 C11 C12 C13 C14 C15 C16 C17 C18 C19 C20; do
-    GTSA_SELFTEST=1 python3 check.py --property $p --tier quick > /tmp/w/seed_$p.log 2>&1; rc=$?
+    rc=$(cat $W/$p.rc)
     if [ $rc -eq 1 ]; then CAUGHT="$CAUGHT $p"; DETAIL="$DETAIL
-$p: $(grep -m1 '^REFUTED' /tmp/w/seed_$p.log | cut -c1-400)"; fi
+$p: $(grep -m1 '^REFUTED' $W/$p.log | cut -c1-400)"; fi
     if [ $rc -eq 2 ]; then DETAIL="$DETAIL
-$p: exit 2 $(grep -m1 '^ANALYSIS' /tmp/w/seed_$p.log | cut -c1-300)"; fi
+$p: exit 2 $(grep -m1 '^ANALYSIS' $W/$p.log | cut -c1-300)"; fi
   done
-  git -C /repo checkout -- .; rm -rf /repo/_gtsa_out
+  git -C $W/wt checkout -- .; rm -rf $W/wt/_gtsa_out
   python3 - "$ID" "$CAUGHT" "$DETAIL" <<'PY'
 import json,sys
 ID,caught,detail=sys.argv[1:4]
@@ -23,4 +33,4 @@ json.dump(m,open(p,"w"),indent=1)
 print(ID, "->", caught)
 PY
 done
-git -C /repo status --short
+git -C /repo worktree remove --force $W/wt; rm -rf $W
